@@ -942,7 +942,7 @@ func (env *Zlisp) FindObject(name string) (Sexp, bool) {
 func (env *Zlisp) Apply(fun *SexpFunction, args []Sexp) (Sexp, error) {
 	//VPrintf("\n\n debug Apply not working on user funcs: fun = '%#v'   and args = '%#v'\n\n", fun, args)
 	if fun.user {
-		return fun.userfun(env, fun.name, args)
+		return env.applyUserFunction(fun, args)
 	}
 
 	callState := env.captureControlState()
@@ -974,6 +974,23 @@ func (env *Zlisp) Apply(fun *SexpFunction, args []Sexp) (Sexp, error) {
 	// put the caller back where it was.
 	env.pc = callState.pc
 	return res, nil
+}
+
+// applyUserFunction calls a Go function on behalf of Apply. Like
+// CallUserFunction it turns a Go panic inside the function into an error
+// and leaves the VM where it was when the call fails.
+func (env *Zlisp) applyUserFunction(fun *SexpFunction, args []Sexp) (res Sexp, err error) {
+	callState := env.captureControlState()
+	defer func() {
+		if recovered := recover(); recovered != nil {
+			res = SexpNull
+			err = fmt.Errorf("Apply caught panic during call of '%s': '%v'", fun.name, recovered)
+		}
+		if err != nil {
+			env.restoreControlState(callState)
+		}
+	}()
+	return fun.userfun(env, fun.name, args)
 }
 
 func (env *Zlisp) Run() (Sexp, error) {
